@@ -24,10 +24,10 @@ KINDS = {
         random=((150, 60, 10000), (1000, 80, 40000))),
     "pool": dict(
         trace=("Trace_Pool.tla", "Trace_Pool.cfg"), mc="MC_Pool.tla", mc_cfg=("MC_Pool_quick.cfg", "MC_Pool_thorough.cfg"),
-        actions=["DoNew", "DoAlloc", "DoFree", "Del"],
-        broken=[("MC_Pool_nopop.cfg", "ParkedSound"), ("MC_Pool_nodtor.cfg", "CtorDtorBalanced")],
+        actions=["DoNew", "DoAlloc", "DoFree", "DoAllocBegin", "DoAllocEnd", "DoFreeBegin", "FreeEnd", "Del"],
+        broken=[("MC_Pool_nopop.cfg", "ParkedSound"), ("MC_Pool_nodtor.cfg", "CtorDtorBalanced"), ("MC_Pool_latepop.cfg", "NeverHandsOutInUse")],
         gen="Gen_Pool.tla", gen_cfg=("Gen_Pool_quick.cfg", "Gen_Pool_thorough.cfg"), sim_cfg="Gen_Pool_sim.cfg", sim_depth=40,
-        events={"pnew", "palloc", "pfree", "pdel"},
+        events={"pnew", "palloc", "pfree", "pdel", "cbeg", "cend", "dbeg", "dend"},
         random=((200, 60, 6000), (1200, 80, 20000))),
     "fd": dict(
         trace=("Trace_Fd.tla", "Trace_Fd.cfg"), mc="MC_Fd.tla", mc_cfg=("MC_Fd_quick.cfg", "MC_Fd_thorough.cfg"),
@@ -46,7 +46,7 @@ KINDS = {
                 "wmovea", "wswap", "wreset", "wdel"},
         random=((200, 60, 4000), (1200, 80, 20000))),
 }
-SCRIPT_KEYS = ("e", "k", "o", "h", "s", "v", "j", "x", "y", "keep", "real", "ty")
+SCRIPT_KEYS = ("e", "k", "o", "h", "s", "v", "j", "x", "y", "keep", "real", "ty", "th")
 
 
 def cleanup_tlc_litter():
